@@ -45,7 +45,8 @@ class C02(Check):
         if rng.random() < 0.15:
             calsim.make_scripted_convergence(cfg, rng)
         env = {"n_jobs": rng.choice([1, 1, 2, 4]), "verbose": rng.random() < 0.3, "folder": rng.random() < 0.2,
-               "sched": {"mode": "random", "seed": rng.randrange(2 ** 31), "p_line": 0.0}}
+               }
+        env["sched"], env["trace_lines"] = calsim.gen_sched(rng, cfg["scheduler"]["kind"] == "rl")
         return {"engine": "calsim", "config": cfg, "env": env, "ops": ops, "sim_seed": rng.randrange(2 ** 31)}
 
     def run(self, scn):
